@@ -511,14 +511,21 @@ def rulesOf (c : Config) (f : Fam) : List Rule :=
 def addSeen (seen : List (Table × Chain)) (k : Table × Chain) : List (Table × Chain) :=
   if seen.contains k then seen else seen ++ [k]
 
+/-- The (table, chain) a rule jumps to, if its target is `-j CHAIN`. -/
+def Rule.jumpKey (r : Rule) : Option (Table × Chain) :=
+  match r.target with
+  | .jump c => some (r.table, c)
+  | _ => none
+
+def addSeenOpt (seen : List (Table × Chain)) : Option (Table × Chain) → List (Table × Chain)
+  | some k => addSeen seen k
+  | none => seen
+
 /-- Chains to declare with `-N`: first every rule's own chain, then every `-j CHAIN` target,
     in order of first appearance; built-in chains are never declared. -/
 def declaredChains (rules : List Rule) : List (Table × Chain) :=
   let p1 := rules.foldl (fun seen r => addSeen seen (r.table, r.chain)) []
-  let p2 := rules.foldl (fun seen r =>
-    match r.target with
-    | .jump c => addSeen seen (r.table, c)
-    | _ => seen) p1
+  let p2 := rules.foldl (fun seen r => addSeenOpt seen r.jumpKey) p1
   p2.filter (fun k => !k.2.builtin)
 
 def tableLines (rules : List Rule) (t : Table) : List String :=
@@ -530,5 +537,20 @@ def restoreLines (rules : List Rule) : List String :=
   Table.sorted.flatMap fun t =>
     let ls := tableLines rules t
     if ls.isEmpty then [] else ["* " ++ t.name] ++ ls ++ ["COMMIT"]
+
+/-! ## executeCommands on a clean network namespace -/
+
+/-- `executeIptablesRestoreCommand`: the restore input is applied with `--noflush` (rules that are
+    already in the table - kube-proxy, CNI - must survive). -/
+def restoreArgs : List String := ["--noflush"]
+
+/-- The external commands `Run` issues, in order, when no Istio residue exists (VerifyIptablesState
+    finds a clean state, so there is no cleanup / guardrail phase; Reconcile, CleanupOnly, ForceApply
+    unset): iptables-save and ip6tables-save for the state check, the restore(s), and the deferred
+    final state dump. -/
+def commandLog (c : Config) : List String :=
+  ["iptables-save", "ip6tables-save", "iptables-restore " ++ " ".intercalate restoreArgs] ++
+  (if c.enableIPv6 then ["ip6tables-restore " ++ " ".intercalate restoreArgs] else []) ++
+  ["iptables-save"] ++ (if c.enableIPv6 then ["ip6tables-save"] else [])
 
 end IstioModel.C20
